@@ -496,7 +496,15 @@ pub fn gen_energy(r: &mut Rng, w: &mut World) {
             adjustment: if r.chance(0.5) { Some(many_digits(r, 1.0, 1.5)) } else { None },
             battery_unit: r.pick(&[None, None, None, Some("gallons_gasoline"), Some("gallons_diesel")]).map(|s| s.to_string()),
             ideal_rate_configured: r.chance(0.35),
+            model_units: None,
         });
+    }
+    // the units a vehicle's model is declared in (a stream of its own: the other knobs stay as they were)
+    let mut r4 = Rng::new(r.next_u64() ^ 0x756e697473);
+    for v in vehicles.iter_mut() {
+        if r4.chance(0.4) {
+            v.model_units = Some((r4.pick(&["kilometers_per_hour", "miles_per_hour", "meters_per_second"]).to_string(), r4.pick(&["decimal", "percent", "millis"]).to_string()));
+        }
     }
     let grade_unit = r.pick(&["decimal", "decimal", "percent", "millis"]).to_string();
     let (distance_unit, time_unit, time_model_units) = if r.chance(0.5) {
